@@ -222,7 +222,7 @@ inductive Backing | shared | isolated | path deriving DecidableEq, Repr
 structure Sess where
   inst : Nat                      -- which FakeSnow instance (0 = `shared_fs`)
   backing : Backing
-  schema : Nat                    -- current schema (abstract name)
+  schema : Option Nat             -- current schema (abstract name); `none` = the login named no schema: there is no current schema
   vars : List (Nat × Int)         -- session variables
   tx : Option (List Int) := none  -- explicit transaction open on the session's DuckDB connection: its pending writes
   deriving DecidableEq, Repr
@@ -245,7 +245,7 @@ inductive Q
 
 inductive Req
   /-- login; `tok` is the value `secrets.token_urlsafe(32)` draws -/
-  | login (tok : Token) (b : Backing) (schema : Nat)
+  | login (tok : Token) (b : Backing) (schema : Option Nat)
   /-- query with the raw Authorization header (`none` = header absent) -/
   | query (auth : Option (List Char)) (q : Q)
   deriving DecidableEq, Repr
@@ -253,7 +253,7 @@ inductive Req
 inductive Resp
   | token (t : Token)
   | unauthorized (code : Nat)
-  | status | val (v : Option Int) | schema (s : Nat) | rows (vs : List Int)
+  | status | val (v : Option Int) | schema (s : Option Nat) | rows (vs : List Int)
   | error          -- the error JSON / ProgrammingError of a failing statement
   | unsupported    -- BEGIN inside a transaction: a raw TransactionException in-process, outside the model (never generated)
   deriving DecidableEq, Repr
@@ -270,7 +270,7 @@ def getVar (vars : List (Nat × Int)) (n : Nat) : Option Int := (vars.find? (·.
 def runQ (se : Sess) (data : List (Nat × Int)) : Q → Sess × List (Nat × Int) × Resp
   | .setVar n v => ({ se with vars := (n, v) :: se.vars.filter (fun p => !(p.1 == n)) }, data, .status)
   | .getVar n => (se, data, .val (getVar se.vars n))
-  | .useSchema s => ({ se with schema := s }, data, .status)
+  | .useSchema s => ({ se with schema := some s }, data, .status)
   | .curSchema => (se, data, .schema se.schema)
   | .put v =>
     match se.tx with
